@@ -300,6 +300,13 @@ fn attack_point(
                 let mut q = pp.clone();
                 q.upgrade.as_mut().unwrap().signature = fu.signature.clone();
                 cands.push(("genuine proof carrying the other key's signature".into(), q));
+                // the signature the replica itself holds (the writer's for the replica's current
+                // length) replayed on the forged writer's upgrade
+                if let Some((_, held)) = sigs.iter().find(|(l, _)| *l == rm.length && rm.length > 0) {
+                    let mut q = fpp.clone();
+                    q.upgrade.as_mut().unwrap().signature = held.clone();
+                    cands.push(("forged writer's proof carrying the signature the replica already holds".into(), q));
+                }
             }
             for (what, q) in cands {
                 if q == pp {
@@ -411,7 +418,9 @@ fn attack_point(
     }
     // c3: genuine proof with the genuine writer's signature for another length
     if let Some(gu) = &pp.upgrade {
-        for (len, sig) in sigs.iter().filter(|(_, s)| *s != gu.signature).take(3) {
+        // the signature for the replica's own length first, then up to three others
+        let own: Vec<&(u64, Vec<u8>)> = sigs.iter().filter(|(l, s)| *l == rm.length && *s != gu.signature).take(1).collect();
+        for (len, sig) in own.into_iter().chain(sigs.iter().filter(|(l, s)| *s != gu.signature && *l != rm.length).take(3)) {
             let mut q = pp.clone();
             q.upgrade.as_mut().unwrap().signature = sig.clone();
             n += 1;
